@@ -2,6 +2,7 @@ package main
 
 import (
 	"context"
+	"encoding/json"
 	"fmt"
 	"sort"
 	"strconv"
@@ -161,7 +162,149 @@ func c17Run(op string, v []string, order []int, sticky bool) (obs string, fails 
 	return obs, fails
 }
 
+// a reply type with a slice, a map and a pointer: whatever the caller's reply variable held before the call (the
+// previous call's answer, its capacity, its map), each server's answer is that server's own
+type c17Rich struct {
+	Vals []int
+	Tags map[string]int
+	P    *int
+}
+
+func (x *c17Rich) show() string {
+	if x == nil {
+		return "nil"
+	}
+	keys := make([]string, 0, len(x.Tags))
+	for k, v := range x.Tags {
+		keys = append(keys, fmt.Sprintf("%s=%d", k, v))
+	}
+	sort.Strings(keys)
+	p := "nil"
+	if x.P != nil {
+		p = strconv.Itoa(*x.P)
+	}
+	return fmt.Sprintf("%v/%s/%s", x.Vals, strings.Join(keys, ","), p)
+}
+
+// c17Structured: two consecutive multi-server calls that share one reply variable.  spec = "<op1><op2>|<n>|<fail mask>"
+func c17Structured(o *common.Out, id, spec string) {
+	o.Begin(id, spec)
+	p := strings.Split(strings.TrimPrefix(spec, "rich "), "|")
+	ops := p[0]
+	n, _ := strconv.Atoi(p[1])
+	mask, _ := strconv.Atoi(p[2])
+	uid := atomic.AddInt64(&c17seq, 1)
+	var pairs []*client.KVPair
+	var addrs []string
+	answer := func(round, i int) *c17Rich {
+		v := 100*round + 10*(i+1)
+		pv := v + 1
+		return &c17Rich{Vals: []int{v, v + 1, v + 2}[:1+(i+round)%3], Tags: map[string]int{fmt.Sprintf("s%d", i): v}, P: &pv}
+	}
+	for i := 0; i < n; i++ {
+		addr := fmt.Sprintf("c17r-%d-s%d", uid, i)
+		// the answer is chosen by the request's argument (the round): a Fork returns as soon as one server has
+		// succeeded, so a request of the first call may never be sent
+		calls := map[string]string{}
+		for round := 1; round <= 2; round++ {
+			if round == 2 && mask&(1<<i) != 0 {
+				calls[strconv.Itoa(round)] = "svc"
+				continue
+			}
+			b, _ := json.Marshal(answer(round, i))
+			calls[strconv.Itoa(round)] = "js:" + string(b)
+		}
+		registerFake(addr, &fakeServer{id: i, byArg: calls, delayMs: (i * 7) % 3 * 5})
+		addrs = append(addrs, addr)
+		pairs = append(pairs, &client.KVPair{Key: "vsrv@" + addr})
+	}
+	defer func() {
+		for _, a := range addrs {
+			unregisterFake(a)
+		}
+	}()
+	d, _ := client.NewMultipleServersDiscovery(pairs)
+	opt := client.DefaultOption
+	opt.SerializeType = protocol.JSON
+	opt.Heartbeat = false
+	xc := client.NewXClient("Svc", client.Failfast, client.RandomSelect, d, opt)
+	defer xc.Close()
+	reply := &c17Rich{}
+	var held []client.Receipt // the receipts of the first call stay with the caller
+	for round := 1; round <= 2; round++ {
+		op := ops[round-1]
+		okShow := map[string]bool{}
+		nOK := 0
+		for i := 0; i < n; i++ {
+			if !(round == 2 && mask&(1<<i) != 0) {
+				okShow[answer(round, i).show()] = true
+				nOK++
+			}
+		}
+		ctx, cancel := context.WithTimeout(context.Background(), 5*time.Second)
+		switch op {
+		case 'B', 'F':
+			var err error
+			if op == 'B' {
+				err = xc.Broadcast(ctx, "M", round, reply)
+			} else {
+				err = xc.Fork(ctx, "M", round, reply)
+			}
+			if err == nil && !okShow[reply.show()] {
+				o.Fail(id, "reply-not-from-a-success", fmt.Sprintf("call %d (%c) reported success, the caller's reply is %s, which no successful server produced (they produced %v)", round, op, reply.show(), okShow), spec)
+			}
+		case 'I':
+			rs, _ := xc.Inform(ctx, "M", round, reply)
+			if len(rs) != n {
+				o.Fail(id, "inform-receipt", fmt.Sprintf("call %d: %d receipts for %d servers", round, len(rs), n), spec)
+			}
+			for _, rc := range rs {
+				i := -1
+				for k, a := range addrs {
+					if strings.HasSuffix(rc.Address, a) {
+						i = k
+					}
+				}
+				if i < 0 {
+					continue
+				}
+				failed := round == 2 && mask&(1<<i) != 0
+				if failed != (rc.Error != nil) {
+					o.Fail(id, "inform-receipt", fmt.Sprintf("call %d: server %d failed=%v, its receipt's error is %v", round, i, failed, rc.Error), spec)
+				}
+				if !failed {
+					got, _ := rc.Reply.(*c17Rich)
+					if want := answer(round, i).show(); got.show() != want {
+						o.Fail(id, "inform-receipt", fmt.Sprintf("call %d: the receipt of server %d carries %s, that server answered %s", round, i, got.show(), want), spec)
+					}
+				}
+			}
+			if round == 1 {
+				held = rs
+			}
+		}
+		cancel()
+	}
+	// what the first call handed out is the caller's: the second call must not have rewritten it
+	for _, rc := range held {
+		for k, a := range addrs {
+			if strings.HasSuffix(rc.Address, a) {
+				got, _ := rc.Reply.(*c17Rich)
+				if want := answer(1, k).show(); got.show() != want {
+					o.Fail(id, "inform-receipt", fmt.Sprintf("the receipt of server %d from the first call read %s; after the second call it reads %s", k, want, got.show()), spec)
+				}
+			}
+		}
+	}
+	o.ImplOnly(id, spec, true)
+	o.Count("structured-replies")
+}
+
 func runC17(r *common.Rand, tier string, o *common.Out, replay string) {
+	if strings.HasPrefix(replay, "rich ") {
+		c17Structured(o, "replay", replay)
+		return
+	}
 	parse := func(s string) (string, []string, []int) {
 		f := strings.Fields(s)
 		v := strings.Split(f[1], ",")
@@ -234,6 +377,16 @@ func runC17(r *common.Rand, tier string, o *common.Out, replay string) {
 						jobs = append(jobs, job{op, v, perm})
 					}
 				}
+			}
+		}
+	}
+	// consecutive calls that share one structured reply variable (oracle only)
+	si := 0
+	for _, ops := range []string{"II", "IF", "IB", "FI", "BI", "FF", "BB", "FB"} {
+		for n := 2; n <= 3; n++ {
+			for mask := 0; mask < 1<<n; mask += 1 + si%2 {
+				si++
+				c17Structured(o, fmt.Sprintf("r%d", si), fmt.Sprintf("rich %s|%d|%d", ops, n, mask))
 			}
 		}
 	}
